@@ -524,12 +524,13 @@ func (p *vpProto) stopWorkers(timeout time.Duration) bool {
 type vpDrain struct {
 	mq    chan []byte
 	reset chan chan struct{}
+	stall chan chan struct{}
 	stop  chan struct{}
 	done  chan [][]byte
 }
 
 func vpStartDrain(mq chan []byte) *vpDrain {
-	d := &vpDrain{mq: mq, reset: make(chan chan struct{}), stop: make(chan struct{}), done: make(chan [][]byte, 1)}
+	d := &vpDrain{mq: mq, reset: make(chan chan struct{}), stall: make(chan chan struct{}), stop: make(chan struct{}), done: make(chan [][]byte, 1)}
 	go func() {
 		var got [][]byte
 		flush := func() {
@@ -550,6 +551,24 @@ func vpStartDrain(mq chan []byte) *vpDrain {
 				flush()
 				got = nil
 				close(ack)
+			case ack := <-d.stall:
+				// the consumer stalls: nothing is taken from the queue until it has been full for 30 ms
+				// (publishes are dropped meanwhile) or 3 s have passed; then it drains normally again
+				close(ack)
+				t0 := time.Now()
+			STALL:
+				for time.Since(t0) < 3*time.Second {
+					select {
+					case <-d.stop:
+						break STALL
+					default:
+					}
+					if len(d.mq) == cap(d.mq) {
+						time.Sleep(30 * time.Millisecond)
+						break
+					}
+					time.Sleep(200 * time.Microsecond)
+				}
 			case <-d.stop:
 				flush()
 				d.done <- got
@@ -565,6 +584,22 @@ func (d *vpDrain) discard() {
 	d.reset <- ack
 	<-ack
 }
+
+// stallWith makes the consumer stall and leaves room for only `room` more messages in the queue
+func (d *vpDrain) stallWith(room int) {
+	ack := make(chan struct{})
+	d.stall <- ack
+	<-ack
+	for len(d.mq) < cap(d.mq)-room {
+		select {
+		case d.mq <- []byte(vpFiller):
+		default:
+			return
+		}
+	}
+}
+
+const vpFiller = "VERIF-FILLER"
 
 func (d *vpDrain) finish() [][]byte {
 	close(d.stop)
@@ -685,6 +720,12 @@ func vpRunCase(line string, caseNo int) (string, string) {
 		return "setup", verdict
 	}
 	drain.discard()
+	// VERIF_PIPE_STALL: the consumer of the message queue stalls at the start of the data phase with room for only
+	// a few messages: the queue fills, publishes are dropped (non-blocking enqueue), then the consumer recovers
+	stalled := os.Getenv("VERIF_PIPE_STALL") != ""
+	if stalled {
+		drain.stallWith(1 + caseNo%7)
+	}
 
 	// ---- data phase ----
 	baseU, baseD := p.udpCount(), p.decCount()
@@ -706,7 +747,7 @@ func vpRunCase(line string, caseNo int) (string, string) {
 			deadline = deadline.Add(time.Duration(idle) * time.Millisecond)
 		}
 		ok := vpWait(deadline, func() bool {
-			return sent-(p.udpCount()-baseU) <= vpMaxInFlight-1 && p.udpLen() < vpMaxUDPQueue && len(p.mq) < vpMaxMQQueue
+			return sent-(p.udpCount()-baseU) <= vpMaxInFlight-1 && p.udpLen() < vpMaxUDPQueue && (stalled || len(p.mq) < vpMaxMQQueue)
 		})
 		if !ok {
 			timedOut = true
@@ -728,7 +769,16 @@ func vpRunCase(line string, caseNo int) (string, string) {
 	}
 	stopped := p.stopWorkers(10 * time.Second)
 	published := drain.finish() // the workers have returned: nothing can be published any more
-	for p.takeUDP() {           // the sentinel, if no worker took it
+	if stalled {
+		kept := published[:0]
+		for _, b := range published {
+			if string(b) != vpFiller {
+				kept = append(kept, b)
+			}
+		}
+		published = kept
+	}
+	for p.takeUDP() { // the sentinel, if no worker took it
 	}
 	du, dd := p.udpCount()-baseU, p.decCount()-baseD
 	if !stopped {
@@ -784,14 +834,21 @@ func vpRunCase(line string, caseNo int) (string, string) {
 	for _, c := range expect {
 		missing += c
 	}
-	if missing > 0 {
+	if missing > 0 && !stalled { // a publish attempted while the queue is full is dropped by design
 		fail("missing %d", missing)
 	}
 	if dd != nCounts {
 		fail("decoded-count %d want %d", dd, nCounts)
 	}
-	if len(published) != nExpect {
+	if len(published) != nExpect && !stalled {
 		fail("published-count %d want %d", len(published), nExpect)
+	}
+	if stalled && verdict == "" {
+		// the count of publishes depends on the stall: report only what does not
+		implLine = fmt.Sprintf("udp=%d decoded=%d published<=%d", du-1, dd, nExpect)
+		if len(published) > nExpect {
+			fail("published-count %d > %d", len(published), nExpect)
+		}
 	}
 	if du != N+1 {
 		fail("udp-count %d want %d (+1 sentinel)", du-1, N)
